@@ -99,7 +99,7 @@ def run(ctx):
              floor=40, floor_what='(path, strategy, resolver) triples')
     ctx.rule('R03.5', 'the internal parent_deleted pseudo-op stays internal (one producer, first arms of the consumer, sentinel tested before patch)', floor=4)
     ctx.rule('R03.7', 'index arithmetic of the concurrent-insert splitter is consistent across its arms (wrong offsets index past the remote list)', floor=4)
-    ctx.rule('R03.8', 'the built-in renderer indexes its line lists only behind an emptiness test', floor=4)
+    ctx.rule('R03.8', 'the built-in renderer indexes its line lists only behind an emptiness test', floor=3)
     ctx.rule('R03.9', 'the per-field dispatch that merges two similar inserted cells has an arm for every field the cell schema defines', floor=5)
     ctx.rule('R03.6', 'renderer selection is total (unconditional built-in fallback) and every renderer returns a 2-tuple on every path', floor=5)
 
@@ -416,8 +416,20 @@ def run(ctx):
             if isinstance(n, ast.Subscript) and isinstance(n.value, ast.Name) and isinstance(n.slice, (ast.Constant, ast.UnaryOp)) and \
                     isinstance(const_val(n.slice) if isinstance(n.slice, ast.Constant) else -1, int):
                 var = n.value.id
-                is_lines = var in params or any(isinstance(v, ast.Call) and isinstance(v.func, ast.Attribute) and v.func.attr == 'splitlines'
-                                                for v, k, s2 in defs.get(var, []))
+                def lines_name(nm, _d=0):
+                    if nm in params:
+                        return True
+                    for v, k, s2 in defs.get(nm, []):
+                        if isinstance(v, ast.Call) and isinstance(v.func, ast.Attribute) and v.func.attr == 'splitlines':
+                            return True
+                        # loop variable ranging over a literal tuple/list of line lists: for side in (local, remote)
+                        if k == 'for' and isinstance(v, (ast.Tuple, ast.List)) and _d < 3 and \
+                                any(isinstance(e, ast.Name) and lines_name(e.id, _d + 1) for e in v.elts):
+                            return True
+                        if k == 'assign' and isinstance(v, ast.Name) and _d < 3 and lines_name(v.id, _d + 1):
+                            return True
+                    return False
+                is_lines = lines_name(var)
                 if not is_lines or var in ('cmd',):
                     continue
                 st = repo.stmt_of(n)
